@@ -25,7 +25,7 @@ ResolvedDefs(e) ==
       own == ExecDefs(DocOf(e, e.root))
       pairs == {pr \in RefResult(files, e.root) : pr[1] # e.root}
       imported == {d \in UNION {{DocOf(e, p).defs[i] : i \in DOMAIN DocOf(e, p).defs} : p \in DOMAIN files \ {e.root}} :
-                     d.k = "frag" /\ \E pr \in pairs : pr[2] = d.name /\ \E i \in DOMAIN DocOf(e, pr[1]).defs : DocOf(e, pr[1]).defs[i] = d}
+                     d.k = "frag" /\ \E pr \in pairs : pr[2] = "frag" /\ pr[3] = d.name /\ \E i \in DOMAIN DocOf(e, pr[1]).defs : DocOf(e, pr[1]).defs[i] = d}
   IN own \o SetToSeq(imported)
 
 Stat(s) == PrintT(<<"STAT", ToJson(s)>>)
